@@ -4,6 +4,7 @@ Model: HypnoModel/Model/Topology.lean and HypnoModel/Model/Tiling.lean.
 -/
 import HypnoModel.Model.Topology
 import HypnoModel.Model.Tiling
+import HypnoModel.Gen.Pipeline
 import Mathlib.Tactic.IntervalCases
 
 namespace HypnoModel.Props.C08
@@ -242,5 +243,40 @@ example : Tiling.slices [3, 4, 20] 0 = [(0, 3), (3, 7), (7, 27)] := by decide
 -- non-vacuity of the decode theorems: sizes [3,4,20], the witness of the pre-fix defect, are covered
 example : decodeNext (encSN 3 4 20 2 2 27) 0 6 = some 3 := by decide
 example : decodeNext (encSN 3 4 20 2 2 27) 3 6 = some 7 := by decide
+
+
+/-! ## shared y-edges: `MeshRegion.getRZBoundary` (guard and copies regenerated from the source: Gen/Pipeline.lean) -/
+
+/-- the first and the last row (in y) of one position array of a region -/
+structure Edges (P : Type) where
+  first : List P
+  last : List P
+
+/-- getRZBoundary on one array of one region: under the generated guard the last row is overwritten with the first row of the upper
+neighbour (which is the region itself for the periodic core of a single null) -/
+def applyRZ {P : Type} (hasUpper upperIsSelf : Bool) (own up : Edges P) : Edges P :=
+  if Gen.Pipeline.rzCopyGuard hasUpper upperIsSelf then { own with last := up.first } else own
+
+/-- the points on an edge shared by two regions coincide exactly: the upper row of a region *is* the lower row of its upper neighbour -/
+theorem shared_edge_coincides {P : Type} (upperIsSelf : Bool) (own up : Edges P) :
+    (applyRZ true upperIsSelf own up).last = up.first := by
+  cases upperIsSelf <;> simp [applyRZ, Gen.Pipeline.rzCopyGuard]
+
+/-- in particular the periodic core closes on itself -/
+theorem periodic_core_closes {P : Type} (own : Edges P) : (applyRZ true true own own).last = own.first :=
+  shared_edge_coincides true own own
+
+/-- a target edge (no upper neighbour) is left alone, and the lower row is never touched -/
+theorem target_edge_unchanged {P : Type} (b : Bool) (own up : Edges P) : applyRZ false b own up = own := by
+  cases b <;> simp [applyRZ, Gen.Pipeline.rzCopyGuard]
+
+theorem lower_row_untouched {P : Type} (a b : Bool) (own up : Edges P) : (applyRZ a b own up).first = own.first := by
+  unfold applyRZ; split <;> rfl
+
+/-- the copy is made for R and Z, at the y-faces and at the corners, from the neighbour's first row to the region's last row -/
+theorem rz_copies_complete :
+    Gen.Pipeline.rzCopies = [("Rxy", "ylow", -1, 0), ("Zxy", "ylow", -1, 0), ("Rxy", "corners", -1, 0), ("Zxy", "corners", -1, 0)] := rfl
+
+example : (applyRZ true true (⟨[1, 2], [7, 8]⟩ : Edges Nat) ⟨[1, 2], [7, 8]⟩).last = [1, 2] := by decide
 
 end HypnoModel.Props.C08
